@@ -196,6 +196,37 @@ THEOREMS = [
      "(rs_body (error_page 416) <> [] -> "
      "assoc H_VARY (rs_headers (vary_from_settings vn (error_page 416))) = Some (vary_value vn) /\\ "
      "rs_body (vary_from_settings vn (error_page 416)) = rs_body (error_page 416))"),
+    ("connection_end_keeps_histories",
+     "forall (checked : bool) (ops : list pkg_op) (alt : option bytes) (e416 : resp) (drain : bool) (exs : list exch), "
+     "(forall (p : proto) (secure : bool), pair_hist_end true checked ops alt e416 p drain secure exs = "
+     "pair_hist checked ops alt e416 p drain secure exs) /\\ "
+     "(forall shutdown : bool, pair_hist_end shutdown checked ops alt e416 H1 drain false exs = "
+     "pair_hist checked ops alt e416 H1 drain false exs)"),
+    ("close_delimited_complete_iff_close_notify",
+     "forall (m : N) (r : resp) (secure shutdown : bool), "
+     "(end_delimited m r = true -> "
+     "(receive_end m (h1_conn_end secure shutdown) (WClosed r) = WClosed r <-> secure = false \\/ shutdown = true) /\\ "
+     "(receive_end m (h1_conn_end secure shutdown) (WClosed r) = WBroken <-> secure = true /\\ shutdown = false)) /\\ "
+     "(end_delimited m r = false -> receive_end m (h1_conn_end secure shutdown) (WClosed r) = WClosed r) /\\ "
+     "(forall (ce : conn_end) (w : wreply), (forall x : resp, w <> WClosed x) -> receive_end m ce w = w)"),
+    ("close_without_notify_refuted",
+     "exists checked ops alt e416 exs body, Forall ex_ok exs /\\ body <> [] /\\ "
+     "pair_hist_end false checked ops alt e416 H1 true true exs = [Some (Ok WBroken)] /\\ "
+     "pair_hist_end false checked ops alt e416 H1 true false exs = "
+     "[Some (Ok (WClosed (mkResp V11 200 [(B \"content-type\", B \"text/plain\"); (B \"connection\", B \"close\")] body)))] /\\ "
+     "pair_hist_end false checked ops alt e416 H2 true true exs = "
+     "[Some (Ok (WResp (mkResp V2 200 [(B \"content-type\", B \"text/plain\")] body)))] /\\ "
+     "pair_hist_end true checked ops alt e416 H1 true true exs = "
+     "[Some (Ok (WClosed (mkResp V11 200 [(B \"content-type\", B \"text/plain\"); (B \"connection\", B \"close\")] body)))]"),
+    ("head_accepted_by_both",
+     "8 * H1_MAX_HEAD < H2_MAX_HEADER_LIST /\\ "
+     "forall (limit : N) (authority m t : bytes) (h : headers), 8 * H1_MAX_HEAD < limit -> h1_head_ok authority m t h = true -> "
+     "h2_head_ok limit authority m t h = true /\\ N.of_nat (length h) <= 4096"),
+    ("small_header_list_limit_refuted",
+     "exists (authority m t : bytes) (h : headers), h1_head_ok authority m t h = true /\\ h1_head_len authority m t h < 5000 /\\ "
+     "h2_head_ok H1_MAX_HEAD authority m t h = false /\\ h2_head_ok H2_MAX_HEADER_LIST authority m t h = true /\\ "
+     "run_head_gen H1_MAX_HEAD (XL [XL []; XL [XB m; XB t; x_headers h; XB []]]) = XL [XL [XN 200]; XL [XN 431]] /\\ "
+     "run_head (XL [XL []; XL [XB m; XB t; x_headers h; XB []]]) = XL [XL [XN 200]; XL [XN 200]]"),
     ("bodiless_status_answer",
      _SEND + " (p : proto) (secure : bool) (alt : option bytes) (m : N) (path_ok : bool) (r w : resp), "
      "ends_with_head (rs_status r) = true -> "
@@ -715,6 +746,8 @@ def rand_body(rng, n):
 
 
 def rand_request(rng, focus=None):
+    if rng.random() < 0.06:
+        return many_fields_request(rng)
     t = rng.choice(focus) if focus and rng.random() < 0.7 else rng.choice(PATHS)
     m = rng.choice([b"GET", b"GET", b"GET", b"GET", b"HEAD", b"HEAD", b"POST", b"OPTIONS", b"PUT", b"POST", b"PUT", b"DELETE", b"PATCH", b"PURGE"])
     hs = []
@@ -776,6 +809,67 @@ def history(rng):
         h = [(b"accept-encoding", ae)] if ae else []
         reqs += [R(b"GET", t, h), R(b"HEAD", t, h), R(b"GET", t, h + [(b"range", range_values(rng))]), R(b"HEAD", t, h + [(b"range", b"bytes=1-3")])]
     return reqs
+
+
+# ---- the request-head limits of the two front ends ----
+# HTTP/1: the head (request line, field lines, blank line; line ends included) may be 16384 bytes (kvarn_async::read::request,
+# max_len = 16 * 1024 in HttpConnection::accept); HTTP/2: the header list - name + value + 32 per field, pseudo-headers
+# included - must stay below h2's limit (default 16 MiB, which kvarn leaves in place).  The harness's clients send
+# `host: localhost:8443` / `:authority: localhost:8443`, `:scheme: https`.
+H1_MAX_HEAD = 16384
+AUTHORITY = b"localhost:8443"
+
+
+def h1_head_len(r):
+    m, t, hs, _ = r
+    return len(m) + 1 + len(t) + 1 + 8 + 2 + (4 + len(AUTHORITY) + 4) + sum(len(n) + len(v) + 4 for n, v in hs if n != LATE) + 2
+
+
+def h2_list_size(r):
+    m, t, hs, _ = r
+    return (7 + len(m) + 32) + (7 + 5 + 32) + (10 + len(AUTHORITY) + 32) + (5 + len(t) + 32) + sum(len(n) + len(v) + 32 for n, v in hs if n != LATE)
+
+
+def small_fields(n, vlen=1, start=0):
+    """n small header fields `x-fNNNN: v` (distinct names)"""
+    return [(b"x-f%04d" % (start + i), b"v" * vlen) for i in range(n)]
+
+
+def pad_to_head(r, target):
+    """one more field so that the HTTP/1.1 head of the request is exactly `target` bytes (None if that cannot be done)"""
+    need = target - h1_head_len(r) - len(b"x-pad") - 4
+    if need < 0:
+        return None
+    m, t, hs, b = r
+    return R(m, t, list(hs) + [(b"x-pad", b"p" * need)], b)
+
+
+def many_fields_request(rng, m=None, t=None):
+    """a request both front ends accept: many small fields (an HTTP/2 header list 4 - 7 times the HTTP/1 head), or a few
+    long values, up to an HTTP/1 head of exactly 16384 bytes"""
+    m = m or rng.choice([b"GET", b"GET", b"HEAD", b"POST"])
+    t = t or rng.choice([b"/p", b"/p", b"/f.txt", b"/missing", b"/m", b"/q?x=1", b"/st1", b"/n"])
+    u = rng.random()
+    if u < 0.6:
+        hs = small_fields(rng.choice([100, 300, 430, 450, 700, 1000, rng.randrange(1, 1100)]), rng.choice([0, 1, 1, 2]))
+    elif u < 0.8:
+        k = rng.choice([1, 2, 3, 7])
+        hs = [(b"x-long%d" % i, b"L" * (rng.choice([15000, 16000, 16100]) // k)) for i in range(k)]
+    else:
+        hs = small_fields(rng.randrange(0, 600))
+    if rng.random() < 0.3:
+        hs.append((b"accept-encoding", rng.choice([b"gzip", b"br"])))
+    body = b""
+    if m == b"POST":
+        t = b"/echo"
+        body = rand_body(rng, rng.choice([1, 700, 20000]))
+        hs.append((b"content-length", b"%d" % len(body)))
+    r = R(m, t, hs, body)
+    if u >= 0.6 and rng.random() < 0.5:
+        r = pad_to_head(r, H1_MAX_HEAD - rng.choice([0, 0, 1, 2, 100])) or r
+    while h1_head_len(r) > H1_MAX_HEAD:
+        r = R(m, t, list(r[2])[1:], body)
+    return r
 
 
 SMUGGLE = b"GET /s HTTP/1.1\r\nhost: x\r\n\r\n"     # an unread body that looks like a request must not be answered
@@ -859,6 +953,15 @@ DIRECTED_HISTORIES = [
      R(b"GET", b"/m", [(b"range", b"bytes=50-60"), (b"x-custom", b"vv")]), R(b"HEAD", b"/m", [(b"range", b"bytes=11-")]),
      R(b"GET", b"/p"), R(b"GET", b"/p", [(b"if-modified-since", b"@T+100"), (b"range", b"bytes=0-3")]),
      R(b"GET", b"/p", [(b"if-modified-since", b"@T+100"), (b"range", b"bytes=900-")]), R(b"GET", b"/p", [(b"range", b"bytes=900-")])],
+    # requests with MANY SMALL header fields (100 .. 1000 fields `x-fNNNN: v`: 1 - 11 kB as an HTTP/1 head, 4 - 42 kB as an HTTP/2
+    # header list, where every field counts name + value + 32) and with a few very long values, up to an HTTP/1 head of exactly
+    # 16384 bytes - both front ends accept them (head_accepted_by_both), so both protocols have to answer them alike
+    [R(b"GET", b"/p", small_fields(100)), R(b"GET", b"/p", small_fields(300)), R(b"GET", b"/p", small_fields(430)),
+     R(b"HEAD", b"/p", small_fields(450)), R(b"GET", b"/missing", small_fields(450)), R(b"GET", b"/f.txt", small_fields(700, 2)),
+     R(b"GET", b"/p", small_fields(1000) + [(b"accept-encoding", b"gzip")]),
+     R(b"POST", b"/echo", small_fields(600) + [(b"content-length", b"700")], b"h" * 700),
+     R(b"GET", b"/p", [(b"x-long", b"L" * 16000)]), pad_to_head(R(b"GET", b"/q?x=1", [(b"x-long", b"L" * 8000)]), H1_MAX_HEAD),
+     pad_to_head(R(b"GET", b"/m", small_fields(1200, 0)), H1_MAX_HEAD - 1), R(b"GET", b"/st1", small_fields(500)), R(b"GET", b"/p")],
     # a streamed body of UNKNOWN length (with_future, no content-length): HTTP/2 ends the stream, HTTP/1 ends the connection
     # (7334433) - as the last request of a history: GET / HEAD / with an unread request body / ranged
     [R(b"GET", b"/st1"), R(b"GET", b"/p"), R(b"GET", b"/st6")],
@@ -1139,19 +1242,51 @@ def gen_sbodies(rng, n):
     return [Case("proto.sbody", xl(xb(f), xopt(None if r is None else xl(xn(r[0]), xn(r[1])))), None, {"kind": "stream_body"}) for f, r in plans]
 
 
+def head_case(cfg, r, kind):
+    ok = h1_head_len(r) <= H1_MAX_HEAD
+    return Case("proto.head", xl(cfg, x_req(r)), "proto.head_spec",
+                {"kind": kind + ("" if ok else "-beyond-h1"), "fields": len(r[2]), "h1_head": h1_head_len(r), "h2_list": h2_list_size(r)})
+
+
+def gen_heads(rng, n):
+    """proto.head: one request to the sentinel page over a fresh HTTP/1.1 (TLS) and a fresh HTTP/2 connection: is it answered?
+    Around the limit of the HTTP/1 head (16384 bytes, reached with one long value / with 1600 small fields), and far above
+    what a 16 KiB header-LIST limit on the HTTP/2 side would allow (430+ small fields)"""
+    cfg = mini_cfg(False, [])
+    base = R(b"GET", b"/s", [])
+    reqs = [R(b"GET", b"/s", small_fields(k)) for k in (0, 100, 300, 430, 450, 700, 1000, 1300, 1500)]
+    for target in (H1_MAX_HEAD - 1, H1_MAX_HEAD, H1_MAX_HEAD + 1, H1_MAX_HEAD + 7, 20000):
+        reqs.append(pad_to_head(base, target))
+        reqs.append(pad_to_head(R(b"GET", b"/s", small_fields(1200)), target))
+    reqs += [R(b"GET", b"/s", small_fields(1630)), R(b"HEAD", b"/s", small_fields(2500, 3))]
+    cases = [head_case(cfg, r, "head-directed") for r in reqs]
+    for _ in range(n):
+        u = rng.random()
+        if u < 0.5:
+            r = R(rng.choice([b"GET", b"HEAD"]), b"/s", small_fields(rng.randrange(0, 1800), rng.choice([0, 1, 1, 2, 5])))
+        elif u < 0.8:
+            r = pad_to_head(R(b"GET", b"/s?q=%d" % rng.randrange(1000), small_fields(rng.randrange(0, 1000))),
+                            H1_MAX_HEAD + rng.choice([-300, -2, -1, 0, 0, 1, 2, 300])) or base
+        else:
+            k = rng.choice([1, 2, 5])
+            r = R(b"GET", b"/s", [(b"x-long%d" % i, b"L" * (rng.randrange(12000, 20000) // k)) for i in range(k)])
+        cases.append(head_case(cfg, r, "head"))
+    return cases
+
+
 def generate(rng, tier):
     if tier == "thorough":
         cases = (gen_pairs(rng, 1500, n_limited=40, big=(1, 2, 1, 2)) + gen_servers(rng, 40) + gen_mini(rng, 100) + gen_answered(rng, 150)
-                 + gen_bodies(rng, 300) + gen_sbodies(rng, 150)
+                 + gen_bodies(rng, 300) + gen_sbodies(rng, 150) + gen_heads(rng, 200)
                  + gen_bursts(rng, [2, 3, 4, 6, 8, 12, 16, 24, 32] * 14 + [32] * 6 + [64, 100] * 6))
     else:
         cases = (gen_pairs(rng, 40, n_limited=2, big=(1, 2)) + gen_servers(rng, 6) + gen_mini(rng, 16) + gen_answered(rng, 6)
-                 + gen_bodies(rng, 14) + gen_sbodies(rng, 8) + gen_bursts(rng, [2, 3, 5, 9, 16, 32, 100]))
+                 + gen_bodies(rng, 14) + gen_sbodies(rng, 8) + gen_heads(rng, 10) + gen_bursts(rng, [2, 3, 5, 9, 16, 32, 100]))
     return cases
 
 
 def directed(rng, mismatches):
-    return (gen_pairs(rng, 100, "directed", n_limited=6, big=()) + gen_bodies(rng, 60)
+    return (gen_pairs(rng, 100, "directed", n_limited=6, big=()) + gen_bodies(rng, 60) + gen_heads(rng, 40)
             + [c for c in gen_bursts(rng, [4, 8, 16, 32, 32, 12], "directed-burst") if c.spec])
 
 
@@ -1184,10 +1319,12 @@ def wire(w):
             return "refused"
         if inner[1][0] == ("N", 4):
             return "broken"
-        assert inner[1][0] in (("N", 0), ("N", 5))
+        # (N 5): the HTTP/1.1 connection ended with this answer, in an orderly way (close_notify on TLS); (N 6): it ended
+        # without close_notify / by a reset after an answer that is complete without that end (HEAD, content-length)
+        assert inner[1][0] in (("N", 0), ("N", 5), ("N", 6))
         v, st, hs, b = inner[1][1][1]
         return {"version": v[1], "status": st[1], "headers": sorted((h[1][0][1], h[1][1][1]) for h in hs[1]), "body": b[1],
-                "closed": inner[1][0] == ("N", 5)}
+                "closed": inner[1][0] in (("N", 5), ("N", 6)), "unclean": inner[1][0] == ("N", 6)}
     except Exception:
         return None
 
@@ -1213,6 +1350,13 @@ def spec_ok(c, i, s):
     except Exception:
         return False
     if c.comp == "proto.answered":
+        return iv == sv
+    if c.comp == "proto.head":
+        # (L (N 96)): the HTTP/1 front end does not accept this head - not a request both protocols can express, no claim
+        if sv == ("L", [("N", 96)]):
+            return True
+        if iv != sv:
+            c.meta["why"] = head_why(c, iv)
         return iv == sv
     if c.comp in PAIRS:
         if iv[0] != "L" or len(iv[1]) != len(sv[1]) or (iv[1] and iv[1][0][0] == "N"):
@@ -1261,6 +1405,32 @@ def spec_ok(c, i, s):
     return False
 
 
+def head_why(c, iv):
+    def show(e):
+        try:
+            return "answered %d" % e[1][0][1] if e[1] else "NOT answered"
+        except Exception:
+            return "?"
+    try:
+        return ("a %s request with %d header fields - an HTTP/1.1 head of %d bytes (limit 16384), an HTTP/2 header list of %d bytes - "
+                "was %s over HTTP/1.1 and %s over HTTP/2" % (c.x[1][1][1][0][1].decode(), c.meta.get("fields", -1), c.meta.get("h1_head", -1),
+                                                           c.meta.get("h2_list", -1), show(iv[1][0]), show(iv[1][1])))
+    except Exception:
+        return "the two front ends disagree: " + kv.pretty(iv, 200)
+
+
+def head_oracle(c, i):
+    """parity itself: a request the HTTP/1 front end answers is answered the same by the HTTP/2 front end"""
+    try:
+        v = kv.xparse(i)
+        h1, h2 = v[1][0][1], v[1][1][1]
+    except Exception:
+        return "unparsable output"
+    if h1 and h1 != h2:
+        return head_why(c, v)
+    return None
+
+
 def sbody_oracle(c, i):
     """extensions::stream_body(): the length announced is the number of bytes written, and they are the requested part of the file"""
     try:
@@ -1294,6 +1464,8 @@ def extra_oracle(c, i):
     """parity itself, on the implementation's output only"""
     if c.comp == "proto.sbody":
         return sbody_oracle(c, i)
+    if c.comp == "proto.head":
+        return head_oracle(c, i)
     if c.comp not in PAIRS:
         return None
     try:
@@ -1307,7 +1479,15 @@ def extra_oracle(c, i):
         if w1 is None or w2 is None:
             return "request %d: unreadable answer" % k
         if norm(w1) != norm(w2):
-            return "request %d: HTTP/1.1 and HTTP/2 answers differ beyond connection-level headers: %r vs %r" % (k, norm(w1), norm(w2))
+            try:
+                rq = c.x[1][1][1][1][1][k][1]
+                nf = len(rq[2][1])
+                size = (" (request %s %s with %d header fields: an HTTP/1.1 head of about %d bytes, an HTTP/2 header list of about %d bytes)"
+                        % (rq[0][1].decode(), rq[1][1].decode(), nf, 41 + len(rq[0][1]) + len(rq[1][1]) + sum(len(h[1][0][1]) + len(h[1][1][1]) + 4 for h in rq[2][1]),
+                           173 + len(rq[0][1]) + len(rq[1][1]) + sum(len(h[1][0][1]) + len(h[1][1][1]) + 32 for h in rq[2][1]))) if nf > 20 else ""
+            except Exception:
+                size = ""
+            return ("request %d%s: HTTP/1.1 and HTTP/2 answers differ beyond connection-level headers: %r vs %r" % (k, size, norm(w1), norm(w2)))[:3000]
         if isinstance(w1, dict):
             m = c.x[1][5][1][k][1][0][1]
             if m == b"HEAD" and (w1["body"] or w2["body"]):
@@ -1388,4 +1568,10 @@ def extra_coverage(cases, impl, model, spec):
             "answers_that_end_the_http1_connection": sum((impl.get(c.id) or "").count("(L (N 5) (L (N 1") for c in cases),
             "exchanges_on_paths_with_vary_rules": sum(1 for c in pairs for e in c.x[1][5][1] if len(e[1]) > 6 and len(e[1][6][1]) > 2 and e[1][6][1][2][1]),
             "request_body_reads_(proto.body)": len([c for c in cases if c.comp == "proto.body"]),
+            "request_heads_at_the_front_end_limits_(proto.head)": len([c for c in cases if c.comp == "proto.head"]),
+            "of_which_beyond_the_http1_head_limit": len([c for c in cases if c.comp == "proto.head" and c.meta.get("h1_head", 0) > H1_MAX_HEAD]),
+            "requests_with_100+_header_fields_through_both_protocols": sum(1 for c in pairs for r in c.x[1][1][1][1][1] if len(r[1][2][1]) >= 100),
+            "largest_http2_header_list_through_both_protocols": max([173 + sum(len(h[1][0][1]) + len(h[1][1][1]) + 32 for h in r[1][2][1])
+                                                                     for c in pairs for r in c.x[1][1][1][1][1]] or [0]),
+            "http1_connections_ended_without_close_notify": sum((impl.get(c.id) or "").count("(L (N 6) (L (N 1") for c in cases),
             "layer4_probes": _STATS["probes"], "layer4_probe_failures": _STATS["probe_failures"]}
